@@ -175,9 +175,21 @@ def _inc(env, cfg):
     if cfg.get('resume') and sage:
         x2 = sym_row(env, names, 'x2')
         y2 = env.real('y2')
+        n_ret = len(b['model'].returned)
         guarded(env, 'resume_explain_one', ex.explain_one, x2, y2)
         s = total(list(ex.importance_values.values()))
         env.claim(f"efficiency_after_resuming:{kind}", eq(s, ex.explained_loss), detail=site)
+        # nothing of the failed call shows LATER either: the successful call is exactly ONE step from the state before the
+        # failed call (a scratch buffer that kept the failed observation and is swapped in now would make it two)
+        after = _snapshot(ex, sage)
+        env.claim(f"one_step_from_the_state_before_the_failed_call:{kind}",
+                  And(*[eq(after[c], snap[c] + 1) for c in ('imp_N', 'var_N', 'marg_N', 'model_N', 'mpred_N')]), detail=site)
+        if b['dynamic'] and not cfg.get('labels') and set(after['mpred']) == set(snap['mpred']):
+            a = ex._smoothing_alpha
+            outs = [o for (_d, o) in b['model'].returned[n_ret:]]
+            env.claim(f"marginal_prediction_is_one_smoothing_step_from_the_state_before_the_failed_call:{kind}",
+                      Or(*[And(*[eq(after['mpred'][k], (1 - a) * snap['mpred'][k] + a * (o[k] if k in o else 0))
+                                 for k in snap['mpred']]) for o in outs]) if outs else False, detail=site)
     env.canary('crash_changes_nothing_is_not_vacuous', False)
 
 
@@ -246,6 +258,6 @@ def _batch(env, cfg):
     env.canary('crash_changes_nothing_is_not_vacuous', False)
 
 
-META['explanation'] += ' Further dimensions: exception type (Exception, StopIteration, KeyError, AttributeError, ZeroDivisionError, ValueError), sparse label outputs, two consecutive failing calls; batch explainers also with the previous estimates produced by a real completed run of the same object (prior=True).'
+META['explanation'] += ' Further dimensions: exception type (Exception, StopIteration, KeyError, AttributeError, ZeroDivisionError, ValueError), sparse label outputs, two consecutive failing calls; after resuming, every tracker is exactly one update (the marginal prediction one smoothing step) from the state before the failed call; batch explainers also with the previous estimates produced by a real completed run of the same object (prior=True).'
 
 META['explanation'] += ' Long runs: 260 (thorough up to 1030) stored rows, one feature, default imputer; the failing callback is any of the last 24 invocations of the run.'
